@@ -95,6 +95,16 @@ def gen_script(rnd, nsess, length):
                 lines.append("%d create" % lg)
                 live[lg] = True
                 ever.add(lg)
+                # creation window: what is persisted may change between a session's creation and its first call
+                # (the session must keep seeing the settings persisted WHEN IT WAS CREATED)
+                others = sorted(k for k, v in live.items() if v and k != lg)
+                if others and rnd.random() < 0.5:
+                    o = rnd.choice(others)
+                    lines.append("%d select_schema %s" % (o, rnd.choice(["luna_pinyin", "cangjie5"])))
+                    if rnd.random() < 0.5:
+                        lines.append("%d set_option %s %d" % (o, rnd.choice(["ascii_mode", "full_shape", "ascii_punct", "simplification"]), rnd.randint(0, 1)))
+                    for op in ("get_schema", "get_status", "key 110 0", "key 105 0", "get_context"):
+                        lines.append("%d %s" % (lg, op))
             elif r < 0.85:
                 # dead or never-issued id: every call must be rejected
                 for op in gen_ops_live(rnd)[:3]:
@@ -113,6 +123,24 @@ def gen_script(rnd, nsess, length):
             elif r < 0.115:
                 lines.append("0 cleanup_all")
                 live = {}
+            elif r < 0.16:
+                # let time pass and sweep: sessions idle for more than 300 s are recycled, the others stay
+                lines.append("0 advance %d" % rnd.choice([10, 150, 200, 290, 301, 400]))
+                if rnd.random() < 0.7:
+                    for k in sorted(k for k, v in live.items() if v):
+                        if rnd.random() < 0.5:
+                            lines.append("%d %s" % (k, rnd.choice(["get_status", "find", "key 97 0"])))
+                    lines.append("0 advance %d" % rnd.choice([10, 150, 200, 290, 301]))
+                lines.append("0 cleanup_stale")
+                before = sorted(k for k, v in live.items() if v)
+                live = {k: v for k, v in simulate(lines)[1].items()}
+                # every swept id must be rejected at once - ask before any other session is looked up
+                swept = [k for k in before if not live.get(k)]
+                rnd.shuffle(swept)
+                for k in swept:
+                    lines.append("%d %s" % (k, rnd.choice(["get_status", "find", "key 97 0", "get_context"])))
+                for k in swept + [k for k in before if live.get(k)]:
+                    lines.append("%d find" % k)
             else:
                 for op in gen_ops_live(rnd):
                     lines.append("%d %s" % (lg, op))
@@ -124,23 +152,43 @@ def gen_script(rnd, nsess, length):
     return lines
 
 
-def incarnations(lines):
-    """split a script into incarnations: {(logical, n): [ops from create to destroy/cleanup/end]}"""
-    inc, cur, count = {}, {}, {}
+def simulate(lines):
+    """mirror of the service model on logical sessions: returns (per-line incarnation key or None, final liveness)"""
+    now, stamp, cur, count, keys = 0, {}, {}, {}, []
     for l in lines:
         lg, op = l.split(" ", 1)
         lg = int(lg)
-        if op == "cleanup_all":
+        name = op.split()[0]
+        key = None
+        if name == "cleanup_all":
             cur = {}
-            continue
-        if op == "create":
+        elif name == "advance":
+            now += int(op.split()[1])
+        elif name == "cleanup_stale":
+            for k in list(cur):
+                if stamp[k] < now - 300:
+                    del cur[k]
+        elif name == "create":
             count[lg] = count.get(lg, 0) + 1
             cur[lg] = (lg, count[lg])
-            inc[cur[lg]] = ["create"]
+            stamp[lg] = now
+            key = cur[lg]
         elif lg in cur:
-            inc[cur[lg]].append(op)
-            if op == "destroy":
+            key = cur[lg]
+            if name == "destroy":
                 del cur[lg]
+            else:
+                stamp[lg] = now          # GetSession activates (find_session included)
+        keys.append(key)
+    return keys, {k: True for k in cur}
+
+
+def incarnations(lines):
+    """split a script into incarnations: {(logical, n): [ops from create to destroy/sweep/end]}"""
+    inc = {}
+    for l, key in zip(lines, simulate(lines)[0]):
+        if key is not None:
+            inc.setdefault(key, []).append(l.split(" ", 1)[1])
     return inc
 
 
@@ -157,6 +205,8 @@ def run_harness(exe, tmpl, work, name, lines, user_yaml=None):
     rc, out, err = vlib.sh2([exe, os.path.join(tmpl, "shared"), user, os.path.join(tmpl, "user", "build"), script], timeout=600,
                             env={"ASAN_OPTIONS": "detect_leaks=0", "UBSAN_OPTIONS": "print_stacktrace=1"})
     rows = []
+    if "NOT-INTERPOSED" in out:
+        raise RuntimeError("the harness's virtual clock is not used by librime (time() not interposed)")
     for l in out.split("\n"):
         if l.count("|") >= 5:
             f = l.split("|", 5)
@@ -238,20 +288,12 @@ def run(ctx):
                           {"script": lines, "first_difference_at_line": k, "run1": rows[k] if k is not None else None,
                            "run2": rows2[k] if k is not None else None}, found_input=True)
         # --- per-incarnation transcripts: interleaved vs solo
-        cur, count, inter = {}, {}, {}
+        inter = {}
+        sim_keys = simulate(lines)[0]
         for r in rows:
-            lg, op = r["lg"], r["op"]
-            if op == "cleanup_all":
-                cur = {}
-                continue
-            if op == "create":
-                count[lg] = count.get(lg, 0) + 1
-                cur[lg] = (lg, count[lg])
-                inter[cur[lg]] = [("create", "created")]
-            elif lg in cur:
-                inter[cur[lg]].append((op, r["obs"]))
-                if op == "destroy":
-                    del cur[lg]
+            key = sim_keys[r["lineno"] - 1]
+            if key is not None:
+                inter.setdefault(key, []).append((r["op"], "created" if r["op"] == "create" else r["obs"]))
         for key, tr in inter.items():
             n_inc += 1
             if sum(1 for o, _ in tr if o == "key") >= 3:
@@ -274,6 +316,12 @@ def run(ctx):
             op = r["op"]
             if op == "cleanup_all":
                 model_feed.append("cleanup")
+                model_expect.append((si, r, "unit"))
+            elif op == "advance":
+                model_feed.append("advance %s" % lines[r["lineno"] - 1].split()[2])
+                model_expect.append((si, r, "unit"))
+            elif op == "cleanup_stale":
+                model_feed.append("cleanup_stale")
                 model_expect.append((si, r, "unit"))
             elif op == "create":
                 model_feed.append("create %s" % r["canon"])
